@@ -229,6 +229,75 @@ pub fn step_case(s: Structure, op: Op, env: Envelope) -> Case {
     }
 }
 
+/// Admin-forced recovery with every selection sequence of up to 3 ids (tracked ids and an unknown one),
+/// default and explicit receiver. Forcing in-flight transfers re-bases the ledgers by design, so `Inv` is not
+/// re-proved here; what is decided: no panic, exact selection semantics, re-sent sum, rollback on error.
+pub fn recmat_case(s: Structure, sel: Vec<u64>, receiver: Option<&'static str>, env: Envelope) -> Case {
+    let name = format!("recmat:{}:{:?}:{}", s.name, sel, receiver.unwrap_or("default"));
+    Case {
+        name,
+        run: Box::new(move |f: &Filter, miniwasm: bool| {
+            let mut b = scen::build(&s);
+            scen::assume_inv(&b.chain, &b.ghost, env);
+            let who = b.chain.who.clone();
+            let op = Op::Recover { sender: P::Admin, paginated: None, selected: Some(sel.clone()), receiver, faults: vec![] };
+            let out = step::run(&mut b, &op, "", env);
+            let _ = miniwasm;
+            symcore::note(format!("outcome={}", out.tx.kind()));
+            symcore::note(format!("detail={}", out.tx.detail()));
+            if let crate::world::Tx::Panic(p) = &out.tx {
+                step::prove(f, &format!("C16:no panic [{}]", step::panic_key(p)), "false".into());
+                return;
+            }
+            step::claim(f, "C16:entry point returned a result or a typed error", true);
+            let recv = match receiver {
+                None => who.staker.clone(),
+                Some("n1") => who.n1.clone(),
+                Some(o) => o.to_string(),
+            };
+            let mut distinct: Vec<u64> = vec![];
+            for id in &sel {
+                if !distinct.contains(id) {
+                    distinct.push(*id);
+                }
+            }
+            let pre = &out.pre;
+            let all_exist = distinct.iter().all(|id| pre.packets.contains_key(id));
+            let recv_ok = all_exist && distinct.iter().all(|id| pre.packets[id].2 == recv);
+            let denoms: BTreeSet<String> = distinct.iter().filter_map(|id| pre.packets.get(id).map(|p| p.0.clone())).collect();
+            let selectable = all_exist && recv_ok && denoms.len() == 1;
+            match &out.tx {
+                crate::world::Tx::Ok { msgs, .. } => {
+                    step::claim(f, "C07:forced recovery succeeds only when every selected id is tracked, for the given receiver, in one denom", selectable);
+                    let removed: Vec<u64> = pre.packets.keys().filter(|k| !out.post.packets.contains_key(k)).cloned().collect();
+                    let mut want = distinct.clone();
+                    want.sort();
+                    step::claim(f, "C07:forced recovery consumes exactly the selected transfers, each once", removed == want);
+                    let total = crate::t::sum(&want.iter().filter_map(|k| pre.packets.get(k).map(|p| p.1.clone())).collect::<Vec<_>>());
+                    let tr: Vec<&crate::world::Emitted> = msgs.iter().filter(|m| matches!(m, crate::world::Emitted::Transfer { .. })).collect();
+                    step::claim(f, "C07:forced recovery emits exactly one transfer and nothing else", tr.len() == 1 && msgs.len() == 1);
+                    if let Some(crate::world::Emitted::Transfer { receiver: r2, denom, amount, seq, .. }) = tr.first() {
+                        step::claim(f, "C07:forced re-send goes to the selected receiver in the selected denom", *r2 == recv && denoms.iter().next() == Some(denom));
+                        step::prove(f, "C07:forced re-send carries the sum of the selected transfers, each counted once", crate::t::eq(amount, &total));
+                        step::claim(f, "C07:forced re-send is tracked under a fresh sequence", seq.map(|q| out.post.packets.contains_key(&q) && !pre.packets.contains_key(&q)).unwrap_or(false));
+                    }
+                    step::packets_same(f, "C07:other tracked transfers untouched by forced recovery", pre, &out.post, &want);
+                    step::prove_same(f, "C01:forced recovery leaves the totals alone", &[(&out.post.n, &pre.n), (&out.post.l, &pre.l), (&out.post.fees, &pre.fees), (&out.post.rewards, &pre.rewards)]);
+                }
+                crate::world::Tx::Err(e) => {
+                    step::claim(f, "C08:failed operation changes nothing", pre.raw == out.post.raw);
+                    if selectable {
+                        step::claim(f, &format!("C07:a well-formed forced selection is accepted from the admin [{}]", step::short(e)), false);
+                    }
+                }
+                _ => {
+                    step::claim(f, "C08:failed operation changes nothing", pre.raw == out.post.raw);
+                }
+            }
+        }),
+    }
+}
+
 pub fn cases(suite: &str, tier: &str, seed: u64, props: &BTreeSet<String>) -> Vec<Case> {
     let env = envelope_for(props);
     let mut out = vec![];
@@ -259,6 +328,35 @@ pub fn cases(suite: &str, tier: &str, seed: u64, props: &BTreeSet<String>) -> Ve
                         if matches!(op, Op::Stake { .. } | Op::Unstake { .. } | Op::Submit { .. } | Op::Withdraw { .. } | Op::Rewards { .. } | Op::ReceiveUnstaked { .. } | Op::Breaker { .. } | Op::Resume { .. }) {
                             out.push(step_case(s.clone(), op, env));
                         }
+                    }
+                }
+            }
+        }
+        "recmat" => {
+            let base = CfgSpec::base();
+            let mut ss = scen::core_structures(&base);
+            ss.extend(scen::extended_structures(&base));
+            for s in ss.into_iter().filter(|s| !s.packets.is_empty() && s.packets.len() <= 4) {
+                let mut ids: Vec<u64> = s.packets.iter().map(|p| p.seq).collect();
+                ids.push(4242);
+                let mut sels: Vec<Vec<u64>> = vec![vec![]];
+                let maxlen = if tier == "thorough" { 4 } else { 3 };
+                let mut frontier: Vec<Vec<u64>> = vec![vec![]];
+                for _ in 0..maxlen {
+                    let mut next = vec![];
+                    for fr in &frontier {
+                        for id in &ids {
+                            let mut x = fr.clone();
+                            x.push(*id);
+                            next.push(x);
+                        }
+                    }
+                    sels.extend(next.clone());
+                    frontier = next;
+                }
+                for sel in sels {
+                    for r in [None, Some("n1")] {
+                        out.push(recmat_case(s.clone(), sel.clone(), r, env));
                     }
                 }
             }
